@@ -127,6 +127,54 @@ def update_worker(analysis: Analysis, ctxspec) -> dict:
     return {"ctx": ctx.name, "rows": rows}
 
 
+ZERO_SCENARIOS = [
+    # (name, responder, session store, scheduled (type, version), loaded firmware keys, request words, reply expected)
+    ("config for a firmware of type 0", "ota:OTAFirmware.respond_fw_config", "requested", (0, 5), [(0, 5)], (1, 1, 8, 0, 0), True),
+    ("config for a firmware of version 0", "ota:OTAFirmware.respond_fw_config", "unstarted", (5, 0), [(5, 0)], (1, 1, 8, 0, 0), True),
+    ("block of a firmware of type 0", "ota:OTAFirmware.respond_fw", "unstarted", (0, 5), [(0, 5)], (0, 5, 0), True),
+    ("block of a firmware of version 0", "ota:OTAFirmware.respond_fw", "started", (5, 0), [(5, 0)], (5, 0, 3), True),
+    ("block request naming type 0, which is not loaded", "ota:OTAFirmware.respond_fw", "started", (1, 1), [(1, 1)], (0, 1, 0), False),
+    ("block request naming version 0, which is not loaded", "ota:OTAFirmware.respond_fw", "started", (1, 1), [(1, 1)], (1, 0, 0), False),
+]
+
+
+def zero_worker(analysis: Analysis, idx: int) -> dict:
+    """Boundary evaluation: firmware type / version 0 are ordinary ids (exact session stores and request words)."""
+    from ..values import DictV
+
+    name, qual, store, sched, loaded, words, want_reply = ZERO_SCENARIOS[idx]
+    ctx = analysis.context(analysis.versions[-1], "serial", "sync")
+    it = analysis.new_interp(ctx)
+    st, gw = analysis.gateway_state(it)
+    ota = Sym(("root", "OTA"), ("cls", "ota:OTAFirmware"))
+    st.mem[(ota.key(), "a", "_const")] = st.mem[(gw.key(), "a", "const")]
+    for sname in STORES:
+        st.mem[(ota.key(), "a", sname)] = DictV({7: TupleV([Const(sched[0]), Const(sched[1])])} if sname == store else {}, closed=True, label=f"store:{sname}")
+    rec = lambda k: DictV({"blocks": Const(8), "crc": Const(4660), "data": Unknown("bytes", label=f"image{k}")}, closed=True, label=f"fw{k}")
+    st.mem[(ota.key(), "a", "firmware")] = DictV({k: rec(k) for k in loaded}, closed=True, label="firmware")
+    msg = Obj("Message#inbound", "message:Message")
+    st.mem[(msg.key(), "a", "node_id")] = Const(7)
+    st.mem[(msg.key(), "a", "payload")] = Unknown("str", label="inbound.payload")
+    st.mem[(msg.key(), "a", "gateway")] = gw
+    for a, val in (("child_id", 255), ("type", 4), ("ack", 0), ("sub_type", 0)):
+        st.mem[(msg.key(), "a", a)] = Const(val)
+    st.add_fact(("canonical", msg.key()))
+    it.opaque_handlers["ota:fw_hex_to_int"] = lambda _it, s, _info, args, kwargs, node: [("val", s, TupleV([Const(w) for w in words]))]
+    replies = nones = 0
+    raises = []
+    for out in analysis.run_root(it, qual, [msg], ota, st):
+        kind, s, v = out
+        if kind == "raise":
+            if not discharge(v):
+                raises.append(f"{v.cls.__name__}: {v.what}")
+        elif isinstance(v, Const) and v.value is None:
+            nones += 1
+        else:
+            replies += 1
+    ok = not raises and ((replies > 0 and nones == 0) if want_reply else (replies == 0 and nones > 0))
+    return {"name": name, "qual": qual, "want_reply": want_reply, "ok": ok, "detail": f"{replies} replying, {nones} silent path(s)" + (f", raises {raises[:1]}" if raises else "")}
+
+
 def update_fw_worker(analysis: Analysis, ctxspec) -> dict:
     """The controller's update call: what it hands to make_update after loading the firmware file."""
     ctx = analysis.context(*ctxspec)
@@ -152,6 +200,13 @@ def update_fw_worker(analysis: Analysis, ctxspec) -> dict:
                 ids_ok = [isinstance(x, V) and x.key() == y.key() for x, y in zip(a[:3], args[:3])]
                 rows.append({"loaded": loaded, "none": none, "nonempty": nonempty, "ids_ok": all(ids_ok), "img": repr(img.key())[:80] if isinstance(img, V) else str(img), "path_given": ("truthy", args[3].key()) in (e.facts or ()), "witness": describe_path(out, 16)})
     return {"qual": m.qual, "ctx": ctx.name, "rows": rows}
+
+
+def zero_rules(analysis: Analysis, res: RuleResult, rule: str) -> None:
+    """0 is a valid firmware type / version: it is served when scheduled and loaded, and a request naming it is
+    not mistaken for "nothing requested" (shared by C10-R1 and C09-R1)."""
+    for r in common.pmap(analysis, zero_worker, list(range(len(ZERO_SCENARIOS)))):
+        res.add(rule, f"{r['qual']} / {r['name']}: {'answered' if r['want_reply'] else 'not answered'}", r["ok"], "mysensors/ota.py", r["detail"] if r["ok"] else f"{r['detail']}: a type / version of 0 is treated as missing (truthiness test instead of `is None`)")
 
 
 def reboot_writers(analysis: Analysis, res: RuleResult) -> None:
@@ -250,6 +305,7 @@ def run(analysis: Analysis, tier: str) -> RuleResult:
     from .c09 import strict_hex
 
     strict_hex(analysis, res, "C10-R4")
+    zero_rules(analysis, res, "C10-R1")
     # the update call itself: a firmware file that does not load to a non-empty image schedules nothing
     for summ in common.pmap(analysis, update_fw_worker, [(last, "serial", "sync"), (last, "serial", "async")]):
         q = summ["qual"]
